@@ -187,7 +187,8 @@ def run(ctx, rep):
             ok = ok and br is not None and len(br.ops) == 3 and depends_on(f, br.ops[0], p.id)
         rep.check(ok, 'R-C06-6', 'autosave: parity_sync (checked) dominates state_write', c.loc(), '%d dominating parity_sync sites' % len(pre), function='state_sync_process', construct='autosave sync-before-save')
     # every return-to-caller path of the normal exit passes parity_sync
-    endb = [b for b, nme in enumerate(f.bname) if nme == 'end']
+    # the normal end of the stripe loop: the block that calls the progress epilogue (label `end:` in the pinned tree, whatever its name)
+    endb = [c_.block for c_ in f.calls('state_progress_end')][:1]
     if endb:
         stops = L.slot_calls('io_stop')
         post = [p for p in ps if p.block not in L.body]
